@@ -28,7 +28,12 @@ def routing(F, fn_name="subscript", mod_suffix="expressions"):
     out = []
     for it in F.syn("mech_interpreter.lib"):
         if it["k"] == "fn" and it["name"] == fn_name and it["mod"].endswith(mod_suffix):
-            for m in find(it["body"], "match"):
+            bracket_bodies = []
+            for m0 in find(it["body"], "match"):
+                for a0 in m0[2]:
+                    if a0[0][0] == "pts" and a0[0][1] == "Subscript::Bracket":
+                        bracket_bodies.append(a0[2])
+            for m in (mm for bb in bracket_bodies for mm in find(bb, "match")):
                 for arm in m[2]:
                     p = arm[0]
                     if p[0] != "pslice":
